@@ -257,22 +257,23 @@ def optns():
     }
 
 
-def namemode():
+def namemode(second='exp_big', ckind='dir'):
     """for name mode (results stored under the config's name): two configs of one pipeline whose names extend each other
-    (exp / exp_big), different values, one data directory"""
+    (exp / exp_big; or exp / exp_tmp, exp_old, exp_error - names the library itself gives to its temporaries), different
+    values, one data directory"""
     return {
         'name': 'namemode',
         'tasks': {
             'A': {'params': [P('pa')], 'inputs': [], 'data': 'json'},
             'B': {'params': [], 'inputs': [by_class('A')], 'data': 'numpy'},
-            'C': {'params': [], 'inputs': [by_class('B')], 'data': 'dir'},
+            'C': {'params': [], 'inputs': [by_class('B')], 'data': ckind},
         },
         'configs': {
             'exp': {'medium': 'json', 'file': 'exp.json', 'tasks': ['A', 'B', 'C'], 'values': {'pa': 1}},
-            'exp_big': {'medium': 'json', 'file': 'exp_big.json', 'tasks': ['A', 'B', 'C'], 'values': {'pa': 2}},
+            second: {'medium': 'json', 'file': f'{second}.json', 'tasks': ['A', 'B', 'C'], 'values': {'pa': 2}},
         },
         'root': 'exp',
-        'variants': {'exp': [], 'exp_big': [[['root'], 'exp_big']]},
+        'variants': {'exp': [], second: [[['root'], second]]},
     }
 
 
